@@ -1,12 +1,54 @@
 package api
 
 import (
+	"path/filepath"
+	"regexp"
 	"strings"
 
 	_ "github.com/ja7ad/otp/internal/app/docs"
 	fastHttpSwagger "github.com/swaggo/fasthttp-swagger"
+	swaggerFiles "github.com/swaggo/files/v2"
 	"github.com/valyala/fasthttp"
 )
+
+// fastHttpSwagger hands every static file of the Swagger UI to fasthttp.ServeFS,
+// which sets up a new file server - and that file server's never-ending cache
+// cleaner goroutine - for each request. The files are therefore served here by
+// one file server built at start-up; swaggerHandler keeps rendering index.html
+// and doc.json. swaggerFileRe is the pattern fastHttpSwagger routes by.
+var (
+	swaggerHandler = fastHttpSwagger.WrapHandler()
+	swaggerAssets  = (&fasthttp.FS{
+		FS:              swaggerFiles.FS,
+		AllowEmptyRoot:  true,
+		Compress:        true,
+		CompressBrotli:  true,
+		CompressZstd:    true,
+		AcceptByteRange: true,
+	}).NewRequestHandler()
+	swaggerFileRe = regexp.MustCompile(`(.*)(index\.html|doc\.json|favicon-16x16\.png|favicon-32x32\.png|/oauth2-redirect\.html|swagger-ui\.css|swagger-ui\.css\.map|swagger-ui\.js|swagger-ui\.js\.map|swagger-ui-bundle\.js|swagger-ui-bundle\.js\.map|swagger-ui-standalone-preset\.js|swagger-ui-standalone-preset\.js\.map)[\?|.]*`)
+)
+
+func swaggerDocs(ctx *fasthttp.RequestCtx) {
+	m := swaggerFileRe.FindStringSubmatch(string(ctx.RequestURI()))
+	if len(m) != 3 || m[2] == "index.html" || m[2] == "doc.json" {
+		swaggerHandler(ctx)
+		return
+	}
+
+	switch filepath.Ext(m[2]) {
+	case ".html":
+		ctx.Response.Header.Set("Content-Type", "text/html; charset=utf-8")
+	case ".css":
+		ctx.Response.Header.Set("Content-Type", "text/css; charset=utf-8")
+	case ".js":
+		ctx.Response.Header.Set("Content-Type", "application/javascript")
+	case ".png":
+		ctx.Response.Header.Set("Content-Type", "image/png")
+	}
+	ctx.Request.SetRequestURI(m[2])
+	swaggerAssets(ctx)
+}
 
 func routers(ctx *fasthttp.RequestCtx) {
 	path := string(ctx.Path())
@@ -18,7 +60,7 @@ func routers(ctx *fasthttp.RequestCtx) {
 
 	if strings.HasPrefix(path, "/docs/") {
 		ctx.SetUserValue("filepath", strings.TrimPrefix(path, "/docs"))
-		fastHttpSwagger.WrapHandler()(ctx)
+		swaggerDocs(ctx)
 		return
 	}
 
